@@ -23,6 +23,11 @@ func runC12(c *Ctx, r *Report) {
 	c12R4(c, r, "C12.R4")
 	c12R6(c, r, "C12.R6")
 	c12R7(c, r, "C12.R7")
+	// later matchers see the addresses the header declared: matchers keep nothing on the connection (an address
+	// cached there by an earlier remote_ip matcher would survive the replacement), and the address they test is
+	// the connection's live RemoteAddr/LocalAddr
+	c06R5(c, r, "C12.R8")
+	c14R4(c, r, "C12.R9")
 }
 
 func c12R1(c *Ctx, r *Report, rule string) {
@@ -230,7 +235,7 @@ func c12R4(c *Ctx, r *Report, rule string) {
 }
 
 func c12R6(c *Ctx, r *Report, rule string) {
-	r.rule(rule, "allow list (newConn) over rule counts 0..2, TCP/UDP/other peer address and every Contains outcome: no rules -> NewConn(cx, …h.Timeout); first containing rule -> NewConn(cx, …that rule's timeout); none contains or non-IP address -> nil", 3)
+	r.rule(rule, "allow list (newConn) over rule counts 0..2, TCP/UDP/other peer address and every Contains outcome: no rules -> NewConn(cx, …h.Timeout); first containing rule -> NewConn(cx, …that rule's timeout); none contains or non-IP address -> nil, and an IP peer is refused only after every rule was asked", 3)
 	fnName := "modules/l4proxyprotocol.(*Handler).newConn"
 	fn := c.Fn(fnName)
 	if fn == nil {
@@ -305,6 +310,9 @@ func c12R6(c *Ctx, r *Report, rule string) {
 			default:
 				if !(ret.Known && ret.Nil) {
 					problems = append(problems, "a peer outside every allowed range must be passed through untouched, returns "+ret.Desc)
+				}
+				if k != n && p.Outcome == "return" {
+					problems = append(problems, fmt.Sprintf("the peer is treated as not allowed although only %d of the %d rules were asked whether they contain its address (assumptions: %s): an allowed peer's header is passed on as payload", k, n, strings.Join(p.Assume, " & ")))
 				}
 			}
 		}
